@@ -5,10 +5,12 @@
 //!   spy <cap|d> <queue|u> <ops> => <observation>
 //!
 //! oracle : `-` or comma list of `o` (accept) | `e<k>` (refuse with io::ErrorKind index k) | `i` (Interrupted)
+//!          | `e<200+errno>` (refuse with the OS error errno, e.g. e305 = ENOBUFS; never EINTR)
 //!          one entry is consumed per attempted underlying write; accept after exhaustion
 //! ops    : comma list of `e<hex>` (emit/write) | `f` (flush) | `F` (client.flush) | `Q` (queuing.flush)
-//!          | `r` (spy only: drain the receiver); a final drop is always appended
-//! obs    : per op, `;`-separated: `<res>/<att>,<att>…` ; res = ok<n> | err<k> | panic ;
+//!          | `r` (spy only: drain the receiver) | `w<ms>` (let time pass); a final drop is always appended
+//! obs    : per op, `;`-separated: `<res>/<att>,<att>…` ; res = ok<n> | err<k> | panic ; `err<k>!` when the error
+//!          returned is not the very error the scripted writer refused with (same payload / same errno)
 //!          att = `<hex>+` (accepted) | `<hex>!<k>` (refused with kind k)
 //!
 //! Modes: `gen --tier quick|thorough` (seeded by VERIF_SEED), `replay` (cases on stdin, any
@@ -33,6 +35,40 @@ struct Log {
     attempts: Vec<(Vec<u8>, Option<usize>)>,
     script: Vec<Outcome>,
     next: usize,
+    /// identity of the last error handed out: `tok<n>` payload or `os<errno>`
+    last_err: Option<String>,
+}
+
+fn make_err(k: usize, n: u64) -> (io::Error, String) {
+    if k >= 200 {
+        (io::Error::from_raw_os_error((k - 200) as i32), format!("os{}", k - 200))
+    } else {
+        (tok_err(k, n), format!("tok{}", n))
+    }
+}
+
+fn err_identity(e: &io::Error) -> String {
+    match e.raw_os_error() {
+        Some(n) => format!("os{}", n),
+        None => e.get_ref().map(|i| i.to_string()).unwrap_or_else(|| "?".to_string()),
+    }
+}
+
+thread_local! {
+    static CUR_LOG: std::cell::RefCell<Option<Arc<Mutex<Log>>>> = const { std::cell::RefCell::new(None) };
+}
+
+/// `err<k>` for the error the scripted writer handed out last, `err<k>!` for any other error
+fn err_res(e: &io::Error) -> String {
+    let expect = CUR_LOG.with(|c| c.borrow().as_ref().and_then(|l| l.lock().unwrap().last_err.clone()));
+    let k = match e.raw_os_error() {
+        Some(n) if expect.as_deref() == Some(&format!("os{}", n)) => 200 + n as usize,
+        _ => kind_index(e.kind()),
+    };
+    match expect {
+        Some(x) if x != err_identity(e) => format!("err{}!", k),
+        _ => format!("err{}", k),
+    }
 }
 
 struct ScriptedWrite(Arc<Mutex<Log>>);
@@ -50,11 +86,14 @@ impl Write for ScriptedWrite {
             Outcome::Err(k) => {
                 l.attempts.push((buf.to_vec(), Some(k)));
                 let n = l.next as u64;
-                Err(tok_err(k, n))
+                let (e, id) = make_err(k, n);
+                l.last_err = Some(id);
+                Err(e)
             }
             Outcome::Intr => {
                 l.attempts.push((buf.to_vec(), Some(4)));
                 let n = l.next as u64;
+                l.last_err = Some(format!("tok{}", n));
                 Err(tok_err(4, n))
             }
         }
@@ -98,7 +137,7 @@ fn fmt_oracle(o: &[Outcome]) -> String {
 fn res_usize(r: Result<io::Result<usize>, Box<dyn std::any::Any + Send>>) -> String {
     match r {
         Ok(Ok(n)) => format!("ok{}", n),
-        Ok(Err(e)) => format!("err{}", kind_index(e.kind())),
+        Ok(Err(e)) => err_res(&e),
         Err(_) => "panic".into(),
     }
 }
@@ -106,7 +145,7 @@ fn res_usize(r: Result<io::Result<usize>, Box<dyn std::any::Any + Send>>) -> Str
 fn res_unit(r: Result<io::Result<()>, Box<dyn std::any::Any + Send>>) -> String {
     match r {
         Ok(Ok(())) => "ok0".into(),
-        Ok(Err(e)) => format!("err{}", kind_index(e.kind())),
+        Ok(Err(e)) => err_res(&e),
         Err(_) => "panic".into(),
     }
 }
@@ -131,8 +170,13 @@ fn run_mlw(cap: usize, ending: &[u8], oracle: &[Outcome], ops: &[String]) -> Str
     let mut w = Some(MultiLineWriter::with_ending(ScriptedWrite(log.clone()), cap, &end));
     let mut obs = Vec::new();
     let take = |log: &Arc<Mutex<Log>>| -> Vec<(Vec<u8>, Option<usize>)> { std::mem::take(&mut log.lock().unwrap().attempts) };
+    CUR_LOG.with(|c| *c.borrow_mut() = Some(log.clone()));
     for op in ops {
-        let res = if let Some(h) = op.strip_prefix('e') {
+        let res = if let Some(ms) = op.strip_prefix('w') {
+            // time passes; a buffered writer does nothing on its own
+            std::thread::sleep(std::time::Duration::from_millis(ms.parse().unwrap_or(0)));
+            "ok0".to_string()
+        } else if let Some(h) = op.strip_prefix('e') {
             let m = unhex(h);
             let wr = w.as_mut().unwrap();
             res_usize(catch_unwind(AssertUnwindSafe(|| wr.write(&m))))
@@ -149,6 +193,7 @@ fn run_mlw(cap: usize, ending: &[u8], oracle: &[Outcome], ops: &[String]) -> Str
         if r.is_ok() { "ok0" } else { "panic" },
         fmt_atts(&take(&log))
     ));
+    CUR_LOG.with(|c| *c.borrow_mut() = None);
     obs.join(";")
 }
 
@@ -184,7 +229,10 @@ fn run_spy(cap: Option<usize>, queue: Option<usize>, ops: &[String]) -> String {
     let _ = &mut delivered;
     for op in ops {
         let before = rx.len();
-        let res = if let Some(h) = op.strip_prefix('e') {
+        let res = if let Some(ms) = op.strip_prefix('w') {
+            std::thread::sleep(std::time::Duration::from_millis(ms.parse().unwrap_or(0)));
+            "ok0".to_string()
+        } else if let Some(h) = op.strip_prefix('e') {
             let m = String::from_utf8(unhex(h)).unwrap_or_default();
             res_usize(catch_unwind(AssertUnwindSafe(|| sink.emit(&m))))
         } else if op == "f" {
@@ -430,9 +478,13 @@ fn random_cases(out: &mut impl Write, rng: &mut Rng, n: usize, maxops: usize, co
                 if rng.chance(25) {
                     Outcome::Intr
                 } else {
-                    let mut k = rng.below(16) as usize;
+                    let mut k = rng.below(KINDS.len() as u64 + 6) as usize;
                     if k == 4 {
                         k = 15;
+                    }
+                    if k >= KINDS.len() {
+                        // OS-coded errors: ENOBUFS EMSGSIZE EAGAIN ECONNREFUSED ENETUNREACH EPERM
+                        k = 200 + [105usize, 90, 11, 111, 101, 1][k - KINDS.len()];
                     }
                     Outcome::Err(k)
                 }
@@ -571,6 +623,17 @@ fn main() {
     let tier = arg_value(&args, "--tier").unwrap_or("quick".into());
     let mut rng = Rng::new(env_seed());
     let mut count = 0u64;
+    // time passing between operations (long enough for a 5 s / 30 s age limit on buffered data to show): these
+    // cases run on their own threads while the others are generated
+    let idle_ms = if tier == "quick" { 5600 } else { 31000 };
+    let idle: Vec<std::thread::JoinHandle<Option<String>>> = [
+        format!("mlw 64 0a - e6161,w{},e6262,w{},f,e6363,w{}", idle_ms, idle_ms / 4, idle_ms / 4),
+        format!("spy 64 u e6161,w{},e6262,w{},f,e6363,w{}", idle_ms, idle_ms / 4, idle_ms / 4),
+        format!("spy d u e6161,e6262,w{},F,e6363,w{},Q", idle_ms, idle_ms / 4),
+    ]
+    .into_iter()
+    .map(|c| std::thread::spawn(move || run_line(&c)))
+    .collect();
     if tier == "quick" {
         exhaustive(&mut out, &[0, 1, 2, 3, 4], &[0, 1, 2], 3, 2, &mut count);
         exhaustive(&mut out, &[5, 8], &[0, 1], 4, 0, &mut count);
@@ -589,6 +652,12 @@ fn main() {
             large_caps(&mut out, &mut rng, &mut count);
         }
         spy_cases(&mut out, &mut rng, 20000, &mut count);
+    }
+    for h in idle {
+        if let Ok(Some(l)) = h.join() {
+            writeln!(out, "{}", l).unwrap();
+            count += 1;
+        }
     }
     eprintln!("mlw: {} cases", count);
 }
